@@ -14,8 +14,12 @@ for f in ('svtfacts', 'svtfacts.srchash'):
 env = dict(os.environ, SVT_REPO=wt, SVT_CACHE=cache, VERIF_EVID_DIR=evid)
 
 
-def run(pid):
-    r = subprocess.run([os.path.join(V, 'check'), pid], capture_output=True, text=True, env=env)
+def run(pid, cfg=None):
+    e = dict(env)
+    e.pop('VERIF_ALT_CONFIG', None)
+    if cfg:
+        e['VERIF_ALT_CONFIG'] = cfg
+    r = subprocess.run([os.path.join(V, 'check'), pid], capture_output=True, text=True, env=e)
     return r.returncode, [l for l in r.stdout.splitlines() if l.startswith('violation')], r.stdout[-400:] + r.stderr[-400:]
 
 
@@ -25,18 +29,19 @@ try:
     for mid in sys.argv[1:]:
         m = muts[mid]
         pid = m['property']
-        if pid not in base:
-            base[pid] = set(run(pid)[1])
+        cfg = m.get('config')
+        if (pid, cfg) not in base:
+            base[pid, cfg] = set(run(pid, cfg)[1])
         p = os.path.join(wt, m['file'])
         s = open(p).read()
         if s.count(m['old']) != 1:
             print(mid, 'site matches', s.count(m['old'])); continue
         open(p, 'w').write(s.replace(m['old'], m['new']))
         try:
-            rc, v, tail = run(pid)
+            rc, v, tail = run(pid, cfg)
         finally:
             subprocess.run(['git', '-C', wt, 'checkout', '-q', '--', '.'])
-        new = [x for x in v if x not in base[pid]]
+        new = [x for x in v if x not in base[pid, cfg]]
         print(mid, 'exit', rc, 'CAUGHT' if new else 'MISSED')
         for x in new[:4]:
             print('    ' + x[:300])
